@@ -36,16 +36,14 @@ fn write_length(w: &mut Vec<u8>, length: usize)
 //@ insert entry
     broadcast use ax_iter_seq_vec;
     reveal_with_fuel(st_tree, 2);
-//@ insert after "let mut tmp = Vec::new();"
+//@ insert after-let tmp
             let ghost kids = tags@;
+            proof { lemma_st_trees_len(kids, kids.len()); }
 //@ loop 1 iter=it
                 invariant
                     it.seq() == kids,
                     tmp@ == ber_ts(st_trees(kids, kids.len()), it.index@ as nat), //# inv.children_encoded_in_order
-//@ insert before "write_length(buf, tmp.len());"
-            proof { lemma_st_trees_len(kids, kids.len()); }
-//@ insert before "encode_inner(&mut tmp, tag)?;"
-                proof { lemma_st_trees_len(kids, kids.len()); }
+                    st_trees(kids, kids.len()).len() == kids.len(), forall|i: int| 0 <= i < kids.len() ==> #[trigger] st_trees(kids, kids.len())[i] == st_tree(kids[i]),
 //@ spec
     ensures
         r is Ok, //# C07.encoder_never_fails
